@@ -27,7 +27,7 @@ LEVEL = "proof"
 LEVEL_TEXT = ("Cost laws, argument wiring, annuity identity (service life 1..10 y, induction unrolled with generalised premises) and the balanced-curve construction are proved by "
               "path-complete symbolic execution of the real functions over all real arguments (x**y uninterpreted with its monotonicity law); the "
               "balanced-curve obligation is bounded in table length. Area equality with an independent definition is not covered.")
-NOT_COVERED = ["area target = independently computed sum of Q R / LMTD", "get_min_number_hx", "annuity identity for a general (non-integer or large) service life"]
+NOT_COVERED = ["area target = independently computed sum of Q R / LMTD", "annuity identity for a general (non-integer or large) service life"]
 ASSUMPTIONS = ["x**y (non-integer y) is an uninterpreted function with: positive for positive base, strictly increasing in the base for y > 0"]
 
 
@@ -143,6 +143,55 @@ def ob_bcc(h):
     h.check("balanced_curves_have_equal_spans", Implies(pre, hb[0] - hb[n - 1] == cb[0] - cb[n - 1]))
 
 
+def ob_units_crossing(h):
+    """_count_crossing / _count_utility_range_container: a process stream counts in a region iff its shifted range shares an interval
+    of positive length with it; a utility counts iff it is in use and lies inside the region."""
+    T_low, T_high = h.real("T_low"), h.real("T_high")
+    h.assume(T_high - T_low > 20 * tol)
+    k = h.choice("streams", [1, 2])
+    ss, us = [], []
+    for i in range(k):
+        lo, hi, q = h.real(f"s{i}_t_min_star"), h.real(f"s{i}_t_max_star"), h.real(f"u{i}_duty", lo=0)
+        h.assume(hi - lo > 20 * tol)
+        for a in (lo, hi):
+            for b in (T_low, T_high):                      # TOLSAFE: a bound coincides with a region boundary or is clearly off it
+                h.assume(Or(h.eq(a, b), a - b > 10 * tol, b - a > 10 * tol))
+        h.assume(Or(h.eq(q, 0.0), q > 10 * tol))
+        ss.append(SimpleNamespace(t_min_star=lo, t_max_star=hi))
+        us.append(SimpleNamespace(t_min_star=lo, t_max_star=hi, heat_flow=q))
+    got = ca._count_crossing(T_low, T_high, ss)
+    want = sum((sym_int(And(s.t_max_star > T_low, s.t_min_star < T_high)) for s in ss), 0)
+    h.check("stream_counted_iff_it_overlaps_the_region", got == want)
+    got_u = ca._count_utility_range_container(T_low, T_high, us)
+    want_u = sum((sym_int(And(u.t_min_star >= T_low, u.t_max_star <= T_high, u.heat_flow > 0)) for u in us), 0)
+    h.check("utility_counted_iff_used_and_inside_the_region", got_u == want_u)
+
+
+def sym_int(b):
+    from pvc.sym import ite
+    return ite(b, 1.0, 0.0) if not isinstance(b, bool) else (1.0 if b else 0.0)
+
+
+def ob_units_regions(h):
+    """get_min_number_hx with the two counters replaced by recorders: the regions are the stretches between consecutive rows where the
+    balanced curves meet, with at least one row in between; the result is the sum of the members of every region minus one per region."""
+    n = h.choice("rows", [3, 4])
+    Hh, Hc = h.reals("Hh", n), h.reals("Hc", n)
+    for i in range(n):
+        d = Hc[i] - Hh[i]
+        h.assume(Or(h.eq(d, 0.0), d > 10 * tol, -d > 10 * tol))
+    T = [400.0 - 50.0 * i for i in range(n)]
+    seen = []
+    h.stub(ca, "_count_crossing", lambda lo, hi, streams: (seen.append((streams, lo, hi)), 2)[1])
+    h.stub(ca, "_count_utility_range_container", lambda lo, hi, utilities: (seen.append((utilities, lo, hi)), 1)[1])
+    mk = (lambda v: npx.array(list(v))) if h.symbolic else (lambda v: __import__("numpy").array(list(v), dtype=float))
+    got = ca.get_min_number_hx(mk(T), mk(Hh), mk(Hc), "hot", "cold", "hot_ut", "cold_ut")
+    meets = [i for i in range(n) if bool(h.eq(Hc[i], Hh[i]))]
+    regions = [(a, b) for a, b in zip(meets, meets[1:]) if a + 1 < b]
+    h.check("one_count_per_side_and_region", sorted((w, lo, hi) for w, lo, hi in seen) == sorted((w, T[b], T[a]) for a, b in regions for w in ("hot", "cold", "hot_ut", "cold_ut")))
+    h.check("units_is_members_minus_one_per_region", got == len(regions) * (2 + 2 + 1 + 1) - len(regions))
+
+
 def obligations():
     return [
         Obligation("C15.capex.formula", ob_capex_formula, functions=[costing.compute_capital_cost]),
@@ -150,5 +199,11 @@ def obligations():
         Obligation("C15.capex.args", ob_capex_args, functions=[ca.get_capital_cost_targets], stubs=("compute_capital_cost", "compute_annual_capital_cost")),
         Obligation("C15.crf.annuity.b", ob_crf, kind="bounded", bound="service life 1..10 years (integer), any positive rate", functions=[costing.compute_capital_recovery_factor], timeout_ms=8000, time_budget_s=150),
         Obligation("C15.annual", ob_annual, functions=[costing.compute_annual_capital_cost], stubs=("compute_capital_recovery_factor (pure function)",)),
+        Obligation("C15.units.crossing.b", ob_units_crossing, kind="bounded", bound="1..2 streams / utilities against one region, all temperatures symbolic (TOLSAFE)",
+                   functions=[ca._count_crossing, ca._count_utility_range_container], expect=("stream_counted_iff_it_overlaps_the_region",),
+                   doc="UNITS: membership of a stream / utility in a region between two pinches"),
+        Obligation("C15.units.regions.b", ob_units_regions, kind="bounded", bound="balanced curves of 3..4 rows, all cells symbolic", functions=[ca.get_min_number_hx],
+                   stubs=("_count_crossing", "_count_utility_range_container (recorders; their contracts are C15.units.crossing.b)"),
+                   doc="UNITS: regions between consecutive meeting points; sum of members minus one per region"),
         Obligation("C15.bcc.b", ob_bcc, kind="bounded", bound="tables of 2..3 rows, all cells symbolic", functions=[ca.get_balanced_CC], max_paths=100000),
     ]
